@@ -198,7 +198,7 @@ NATURAL = {ThreatLevel.NONE: ResponseAction.IGNORE, ThreatLevel.SUSPICIOUS: Resp
            ThreatLevel.CONFIRMED: ResponseAction.ISOLATE, ThreatLevel.CRITICAL: ResponseAction.SHUTDOWN}
 
 
-def system(k, slim=True, rules=0):
+def system(k, slim=True, rules=0, acts=("inspect_same", "inspect_new", "flag", "retrain")):
     """ImmuneSystem: train on a window, then inspect windows; memory fills organically.  With rules>0 the
     regulatory cell carries stub tolerance rules whose condition is chosen per evaluation, and the action the
     SYSTEM returns (T-cell or memory recall, then tolerance) is compared with the natural recommendation
@@ -234,7 +234,7 @@ def system(k, slim=True, rules=0):
         # C17.e immediately after successful training the same window reports no threat
         first = True
         for i in range(k):
-            act = c.choice(f"act{i}", ["inspect_same", "inspect_new", "flag", "retrain"])
+            act = c.choice(f"act{i}", list(acts))
             trace.append(act)
             info = {"trace": list(trace)}
             if act == "flag":
@@ -296,7 +296,9 @@ HARNESSES = {
     "treg": {"make": treg_eval, "witness_every": 5, "jobs": lambda tier: [{}], "clauses": ["C17.d", "C17.d-critical"]},
     "system": {"make": system, "witness_every": 17,
                "jobs": lambda tier: [{"k": 2, "slim": True}, {"k": 2, "slim": True, "rules": 1}] if tier == "quick"
-               else [{"k": 3, "slim": True}, {"k": 3, "slim": True, "rules": 1}, {"k": 1, "slim": False}],
+               else [{"k": 2, "slim": True}, {"k": 2, "slim": True, "rules": 1},
+                     {"k": 3, "slim": True, "acts": ["inspect_new", "flag"]}, {"k": 3, "slim": True, "acts": ["inspect_new", "retrain"]},
+                     {"k": 3, "slim": True, "rules": 1, "acts": ["inspect_new", "flag"]}, {"k": 1, "slim": False}],
                "clauses": ["C17.a", "C17.b", "C17.c", "C17.e", "C17.d-sys"]},
 }
 
@@ -308,7 +310,7 @@ META = {
     },
     "files": ["operon_ai/surveillance/tcell.py", "operon_ai/surveillance/treg.py", "operon_ai/surveillance/thymus.py",
               "operon_ai/surveillance/immune_system.py", "operon_ai/surveillance/memory.py"],
-    "bounds": {"quick": "T-cell: one inspect from an arbitrary watcher state, optionally after a reset/false-alarm-reset/flag; Treg: 4 responses x <=2 rules; system: training + 2 actions, inspected windows differ from the training window in response time, error rate, canary accuracy and vocabulary hash", "thorough": "T-cell up to 2 state-changing calls before the inspect; system 3 actions; plus 1 action with a fully symbolic window"},
+    "bounds": {"quick": "T-cell: one inspect from an arbitrary watcher state, optionally after a reset/false-alarm-reset/flag; Treg: 4 responses x <=2 rules; system: training + 2 actions, inspected windows differ from the training window in response time, error rate, canary accuracy and vocabulary hash", "thorough": "T-cell up to 2 state-changing calls before the inspect; system: 2 actions over all four kinds (with and without a tolerance rule), 3 actions over {inspect_new, flag}, {inspect_new, retrain} and, with a tolerance rule, {inspect_new, flag} (3 actions over all four kinds exceed 5 minutes on 16 cores: outside); plus 1 action with a fully symbolic window"},
     "outside": ["MHCDisplay.generate_peptide internals (stubbed)", "hash collisions", "IEEE rounding of bounds off the grid", "Treg fed responses the T-cell cannot produce"],
     "float_argument": "exact rationals on grids 1/4 and 1/20; comparisons only (F-cmp)",
     "assumptions": ["fingerprint generator stubbed", "statistics module stubbed (contract above)", "suppression rule conditions are stubs"],
